@@ -20,6 +20,9 @@ IntAccessorsOk(e) == \A i \in DOMAIN e.lo : e.lo[i] # <<>> /\ DyIsZero(Dy(e.lo[i
 BoundsWhy(e) ==
   IF e.panic # 0 THEN "panic"
   ELSE IF IsIntT(e.t) /\ ~IntAccessorsOk(e) THEN "max-accessor-differs-from-documentation"
+  ELSE IF e.node \in {"cam16ucsjab", "cam16ucsjmh"} /\ ~(\A i \in DOMAIN e.lo : AccessorAgrees(DocBounds[e.node][i][1], e.lo[i], e.t)
+                                                                               /\ AccessorAgrees(DocBounds[e.node][i][2], e.hi[i], e.t))
+       THEN "max-accessor-differs-from-documentation"
   \* transparency: Alpha::min_alpha() = 0 and max_alpha() = 1 (logged last when the colour carries alpha)
   ELSE IF e.alpha = 1 /\ ~IsIntT(e.t) /\ ~(e.lo[Len(e.lo)] = <<0, 0>> /\ e.hi[Len(e.hi)] = <<1, 0, 1>>) THEN "alpha-accessor-differs-from-documentation"
   ELSE IF ~(AllFin(e.clamp) /\ AllFin(e.clamp_assign) /\ AllFin(e.slice) /\ AllFin(e.clamp2)) THEN "non-finite"
